@@ -20,7 +20,7 @@ import fcntl
 VERIF = os.path.dirname(os.path.dirname(os.path.abspath(__file__)))
 REPO = os.environ.get("XCPV_REPO", "/repo")
 DRIVER = os.path.join(VERIF, "driver", "target", "release", "xcpv-driver")
-CACHE = os.path.join(VERIF, ".cache", "facts")
+CACHE = os.path.join(VERIF, ".cache", "facts" + os.environ.get("XCPV_CACHE_SUFFIX", ""))
 SCRATCH = "/var/tmp"
 
 # configuration -> (cwd relative to repo | absolute, cargo args, expected fact files)
